@@ -60,9 +60,11 @@ def g_GetLBAStatus(rng):
 
 
 def g_InquiryStd(rng):
-    b = edge(rng, 96)
-    b[4] = 91
-    return b + slack(rng)
+    # the 36-byte minimum, the lengths around the CLOCKING byte (56), the usual 96: ADDITIONAL LENGTH says n - 5
+    n = rng.choice([96, 96, 36, 57, 58, 74])
+    b = edge(rng, n)
+    b[4] = n - 5
+    return b + (slack(rng) if n == 96 else bytearray())
 
 
 def vpd(rng, code, body):
@@ -147,6 +149,8 @@ def g_ModeSense6(rng, pages=None):
     n = rng.choice([1, 1, 1, 0, 2]) if pages is None else pages
     bd = bytearray(rng.choice([0, 0, 8]))
     body = bd + b"".join(mode_page(rng) for _ in range(n))
+    if pages is None and n and rng.random() < 0.2:
+        body += bytearray([rng.choice([0x02, 0x0A, 0x1D]), 0])      # a last page of PAGE LENGTH 0: still a page
     hdr = bytearray([0, rng.getrandbits(8), rng.getrandbits(8), len(bd)])
     hdr[0] = len(hdr) + len(body) - 1
     return hdr + body + slack(rng)
@@ -301,6 +305,16 @@ def unmarshal_event(fmt, buf, dec=None):
         e["out"] = flatten(r) if r is not None else {}
         if bytes(b) != bytes(buf):
             e["exc"] = "DecoderChangedTheBuffer"       # the data-in buffer belongs to the command: decoding reads it
+        else:
+            # ... and the result is a value of its own: the buffer is used again (overwritten in place, as the next
+            # execution of the same command does) and the result still says what the device had sent
+            b[:] = bytes((x ^ 0xFF) & 0xFF for x in b)
+            try:
+                again = flatten(r) if r is not None else {}
+            except Exception:
+                again = None
+            if again != e["out"]:
+                e["exc"] = "ResultFollowsTheBuffer"
     except Exception as ex:
         e["exc"] = type(ex).__name__
     if not e["out"]:
